@@ -23,7 +23,7 @@ ASSUMPTIONS = ["CMake 3.25.1 at /usr/bin/cmake is the host; a CMake list cannot 
 BUDGET = {"quick": {"shards": 8, "examples": 20}, "thorough": {"shards": 16, "examples": 150}}
 
 CMAKE = "/usr/bin/cmake"
-PREFIXES = ["pfx", "my prefix", "a.b.c", "préfixe 漢", "p-1", "x y  z", "$dollar", "quo\"te", "back\\slash", "(paren)", "#hash"]
+PREFIXES = ["pfx", "my prefix", "a.b.c", "préfixe 漢", "p-1", "x y  z", "$dollar", "quo\"te", "back\\slash", "(paren)", "#hash", "N", "OFF", "0", "IGNORE", "a-NOTFOUND", "FALSE", "no"]
 GLOBS = ["*b.cmake", "sub", "**/sub/*", "a?.cmake", "pre*", "x y"]
 
 
@@ -38,6 +38,7 @@ def strategy(tier):
         "relative": st.booleans(),
         "out_relative": st.booleans(),
         "extras": st.lists(extra, max_size=3),
+        "prior": st.sampled_from([True, False, False]),
     })
 
 
@@ -116,6 +117,16 @@ def evaluate(case):
             f.write(f"file(WRITE {cmake_quote(marker)} \"done\")\n")
         env = dict(os.environ, C19_LOG=log, CMINXDIR=sb.path("cfg"), HOME=sb.path("cfg"), XDG_CONFIG_HOME=sb.path("cfg"),
                    PYTHONHASHSEED="0")
+        if case.get("prior"):
+            # history: an earlier call without extra arguments already filled both output directories
+            res.labels.append("prior-call-into-same-output")
+            d0 = os.path.join(work, "driver0.cmake")
+            with open(d0, "w", encoding="utf-8") as f:
+                f.write(f"set(CMINX_EXECUTABLE {cmake_quote(wrapper)})\n")
+                f.write(f"include({cmake_quote(os.path.join(REPO, 'cmake', 'cminx.cmake'))})\n")
+                f.write("cminx_gen_rst(" + " ".join(cmake_quote(a) for a in [in_arg, out_cm]) + ")\n")
+            subprocess.run([CMAKE, "-P", d0], cwd=work, env=dict(env, C19_LOG=log + ".prior"), capture_output=True, text=True)
+            S.run_main([in_arg] + (["-r"] if os.path.isdir(in_abs) else []) + ["-o", out_cli], cwd=work, cfgdir=sb.path("cfg"))
         p = subprocess.run([CMAKE, "-P", driver], cwd=work, env=env, capture_output=True, text=True)
         is_dir = os.path.isdir(in_abs)
         want_argv = [in_arg] + (["-r"] if is_dir else []) + extras + ["-o", out_cm]
